@@ -61,7 +61,14 @@ CLASSES = (
     "with two and three dimensions, optional numeric arguments found in signatures at run time, empty batches of records, gas "
     "condensate tables (rows with So exactly 0 and Rv > 0), reference densities of exactly 0, flux and density recoveries "
     "asked in turn with interpolators in between, refits with one lmfit parameter held (vary=False) and a different first "
-    "guess, single-phase fluids whose unused fields are 0 or nan"
+    "guess, single-phase fluids whose unused fields are 0 or nan, "
+    "KeyboardInterrupt / SIGINT injected inside simulate, pressures as generators / .flat / map objects, gas_values rows with "
+    "two dozen further fields named like other parts of the library, PVT tables of 6x10^5 .. 2x10^6 rows, correlations found to "
+    "be array-capable at run time, arrays of every size 0..12 on either side of the bubble point, None / nan gas arguments for "
+    "undersaturated oil, inadmissible rel-perm parameters with empty or one-record batches, tables with Rv exactly 0 below an "
+    "onset and cells asked alone vs in a batch on / beside table rows, wrong-length schedules padded with NaN / zeros / repeats / "
+    "masked cells, the constructor's frac-face pressure differing from schedule[0], curves that are in the Axes but invisible "
+    "(alpha, colour, width, visibility; rendered for ink)"
 )
 
 os.makedirs(OUT, exist_ok=True)
